@@ -177,6 +177,52 @@ def _worker(args):
     return agg
 
 
+# Counters of the checks that count injected faults, crashes, damages,
+# clock steps and schedule decisions: reported under faults_fired as well
+# (the counters themselves stay where they are).
+FAULT_COUNTERS = {
+    'cuts': 'crash:image-cut-or-torn-write',
+    'power_loss_images': 'crash:power-loss-image',
+    'zero_tail_images': 'crash:zero-tail-image',
+    'torn_index_images': 'crash:torn-index-image',
+    'crash_in_recovery_images': 'crash:second-crash-in-recovery',
+    'crash_cuts': 'crash:image-cut-inside-pack',
+    'pack_failed': 'io:raw-op-of-a-pack-failed',
+    'recoveries': 'damage:damaged-file-recovered',
+    'switches': 'sched:context-switches',
+    'fine_mode_runs': 'sched:runs-with-line-level-pre-emption',
+    'reopened_with_clock_behind': 'clock:reopen-with-clock-behind',
+    'outcome:clock': 'clock:stall-step-back-or-jump',
+    'op:backup-killed': 'kill:backup-process-killed',
+    'op:backup-gave-up-after-pack': 'race:pack-between-scan-and-copy',
+    'op:spfail': 'fault:savepoint-fails-half-way',
+    'op:consume-failed': 'io:blob-consume-failed',
+    'failed_blob_txns': 'fault:blob-transaction-failed',
+    'ro-open-absent': 'fault:data-file-absent',
+}
+FAULT_PREFIXES = {
+    'variant:': 'fault-point:',         # C05: abort / failure placements
+    'op:fail:': 'failed-commit:',       # C11/C12
+    'damage:': 'repo-damage:',          # C18
+    'open:cut': 'index:cut',            # C09 index variants
+    'open:stale': 'index:stale',
+    'open:junk': 'index:junk',
+}
+
+
+def faults_of(stats):
+    out = {k[6:]: n for k, n in stats.items() if k.startswith('fault:')}
+    for k, n in stats.items():
+        if k in FAULT_COUNTERS:
+            out[FAULT_COUNTERS[k]] = n
+            continue
+        for pre, new in FAULT_PREFIXES.items():
+            if k.startswith(pre):
+                out[new + k[len(pre):]] = out.get(new + k[len(pre):], 0) + n
+                break
+    return out
+
+
 def load_known():
     try:
         with open(KNOWN) as f:
@@ -394,8 +440,7 @@ def check(cid, tier='quick', verif_seed=0, runs=None, workers=None,
             'evaluations_per_hour': int(total['evals'] / max(wall_s, 1e-6)
                                         * 3600),
             'sim_time_s': stats.pop('sim_time_s', 0),
-            'faults_fired': {k[6:]: n for k, n in stats.items()
-                             if k.startswith('fault:')},
+            'faults_fired': faults_of(stats),
             'probes': {k[6:]: n for k, n in stats.items()
                        if k.startswith('probe:')},
             'counters': {k: n for k, n in stats.items()
